@@ -116,7 +116,7 @@ func (Engine) Generate(prop string, r *kit.Rand, tier string) *kit.Scenario[Conf
 				o.Name = fmt.Sprintf("/bg/%d", r.Intn(c.Pre))
 			}
 		case 8:
-			o.Op = kit.Pick(r, []string{"list", "list", "mlist", "mlist", "mslist"})
+			o.Op = kit.Pick(r, []string{"list", "list", "mlist", "mlist", "mslist", "rlist", "rlist", "faceadd", "faceadd"})
 		case 9:
 			o.Op, o.Name, o.Face, o.Cost = "mreg", kit.Pick(r, ribNames), uint64(r.Range(1, 3)), uint64(r.Intn(3))
 			o.Origin = kit.Pick(r, origins)
@@ -384,6 +384,24 @@ func (s *mstate) strategy(n string) string {
 	return st
 }
 
+// ribList: the RIB as rib/list shows it.
+func (s *mstate) ribList() string {
+	ps := []string{}
+	for p, rs := range s.routes {
+		if len(rs) == 0 {
+			continue
+		}
+		xs := []string{}
+		for _, r := range rs {
+			xs = append(xs, fmt.Sprintf("%d/%d/%d/%d", r.face, r.origin, r.cost, r.flags))
+		}
+		sort.Strings(xs)
+		ps = append(ps, p+"="+strings.Join(xs, ","))
+	}
+	sort.Strings(ps)
+	return strings.Join(ps, " ")
+}
+
 // stratList: the strategy table as strategy-choice/list shows it (the root's default included).
 func (s *mstate) stratList() string {
 	ps := []string{}
@@ -485,6 +503,10 @@ var model = porcupine.Model{
 			return ps.st.list() == output.(string), state
 		case "mslist":
 			return ps.st.stratList() == output.(string), state
+		case "rlist":
+			return ps.st.ribList() == output.(string), state
+		case "faceadd":
+			return true, state
 		case "mreg":
 			// a management registration naming a face: accepted iff the face exists at that moment
 			if output.(string) != "ok" {
@@ -626,6 +648,7 @@ func (e Engine) runOnce(t *testing.T, ctx *kit.Ctx, sc *kit.Scenario[Config, Op]
 	table.CreateFIBTable(c.Fib)
 	face.VerifResetFaceTable()
 	fibListFn, stratListFn := fwmgmt.VerifDatasetHandlers()
+	var addedFaces []face.LinkService // faces registered by faceadd operations (tasks run one at a time)
 	drainReadv := func() [][]byte { return nil }
 	if c.Readv {
 		rv, drain := fwmgmt.VerifNlsrReadvertiser()
@@ -786,6 +809,39 @@ func (e Engine) runOnce(t *testing.T, ctx *kit.Ctx, sc *kit.Scenario[Config, Op]
 						sn = st[3].String()
 					}
 					ops = append(ops, porcupine.Operation{ClientId: ti, Input: &Op{Task: o.Task, Op: "strat", Name: o.Name}, Call: int64(call2), Output: sn, Return: int64(ret2)})
+					continue
+				case "faceadd":
+					// a new face registers itself (a listener accepted a connection) while everything else goes on
+					nf := face.MakeNullLinkService(face.MakeNullTransport())
+					face.FaceTable.Add(nf)
+					addedFaces = append(addedFaces, nf)
+					out = "ok"
+				case "rlist":
+					// rib/list reads the entries' routes after the listing call has returned
+					render := func(es []*table.RibEntry) string {
+						ps := []string{}
+						for _, e := range es {
+							xs := []string{}
+							for _, rt := range e.GetRoutes() {
+								xs = append(xs, fmt.Sprintf("%d/%d/%d/%d", rt.FaceID, rt.Origin, rt.Cost, rt.Flags))
+							}
+							sort.Strings(xs)
+							if len(xs) > 0 {
+								ps = append(ps, nstr(e.Name)+"="+strings.Join(xs, ","))
+							}
+						}
+						sort.Strings(ps)
+						return strings.Join(ps, " ")
+					}
+					entries := table.Rib.GetAllEntries()
+					atReturn := render(entries)
+					ret := s.counter
+					s.counter++
+					table.VerifYield("list.use-result")
+					if after := render(entries); after != atReturn && mutated == "" {
+						mutated = fmt.Sprintf("RIB listing returned [%s]; after other threads ran, the same returned entries read [%s]", atReturn, after)
+					}
+					ops = append(ops, porcupine.Operation{ClientId: ti, Input: o, Call: int64(call), Output: atReturn, Return: int64(ret)})
 					continue
 				case "mlist":
 					// fib/list as the management thread serves it: the real handler, dataset decoded
@@ -1152,6 +1208,19 @@ func (e Engine) runOnce(t *testing.T, ctx *kit.Ctx, sc *kit.Scenario[Config, Op]
 	if autoYield {
 		ctx.Probe("built-with-automatic-scheduling-points")
 	}
+	seenID := map[uint64]bool{}
+	for _, nf := range addedFaces {
+		id := nf.FaceID()
+		if seenID[id] || face.FaceTable.Get(id) != nf {
+			res.Violation = &kit.Violation{Class: "C16/face-registration-lost", Key: "", Step: step,
+				Detail: fmt.Sprintf("%d faces registered concurrently: face id %d was handed out twice, or the face holding it is not the one the face table returns for it", len(addedFaces), id)}
+			return res
+		}
+		seenID[id] = true
+	}
+	if len(addedFaces) > 1 {
+		ctx.Probe("faces-registered-concurrently")
+	}
 	if mutated != "" {
 		res.Violation = &kit.Violation{Class: "C16/lookup-result-mutated-after-return", Key: c.Fib, Step: step, Detail: mutated}
 		return res
@@ -1233,7 +1302,7 @@ func linKey(ops []porcupine.Operation) string {
 	}
 	isRead := func(o porcupine.Operation) bool {
 		k := o.Input.(*Op).Op
-		return k == "lookup" || k == "list" || k == "strat" || k == "mlist" || k == "mslist"
+		return k == "lookup" || k == "list" || k == "strat" || k == "mlist" || k == "mslist" || k == "rlist"
 	}
 	var rest []porcupine.Operation
 	for _, o := range ops {
